@@ -252,4 +252,60 @@ def run (c : Cfg α κ) (l : KL α κ) : List (Op α κ) → KL α κ × List (O
     let (l'', os) := run c l' ops
     (l'', o :: os)
 
+/-! ## Item equality that is not identity
+
+`Sequence.index`, `Sequence.count`, `Sequence.__contains__`, `remove`
+(= `del self[self.index(v)]`) and `list.__eq__` compare items with Python `==`
+(`v is value or v == value`). That relation need not be structural and need not
+respect keys: `1 == 1.0 == True` while their `repr` keys differ, objects whose
+`__eq__` ignores the keyed field, `(1, p) == (1.0, p)`. `eqv stored arg` is that
+relation (stored item on the left, as CPython evaluates it). `step` above is the
+instance where `==` is identity; `stepE` is the model the driver runs. Nothing
+that goes *by key* (`l[k]`, `get`, `index_for_key`, `l[k] = v`, `del l[k]`,
+`keys`, `items`, the duplicate tests) ever consults `eqv`. -/
+
+/-- `Sequence.index(value)`: first position whose item is `==` to the argument. -/
+def indexOfE (eqv : α → α → Bool) (l : KL α κ) (x : α) : Except Err Nat :=
+  match l.list.findIdx? (fun y => eqv y x) with
+  | some i => .ok i
+  | none => .error .valueError
+
+/-- `remove(value)` = `del self[self.index(value)]`: deletes the first *equal* item and
+the key of THAT item (not the key of the argument). -/
+def removeE (c : Cfg α κ) (eqv : α → α → Bool) (l : KL α κ) (x : α) : Except Err (KL α κ) :=
+  match indexOfE eqv l x with
+  | .error e => .error e
+  | .ok i => delIdx c l (Int.ofNat i)
+
+/-- `__contains__(value)`: dict test through `asKey`, then `Sequence.__contains__`. -/
+def containsItemE (c : Cfg α κ) (eqv : α → α → Bool) (l : KL α κ) (x : α) : Bool :=
+  (match c.asKey x with
+   | some k => hasKey l.dict k
+   | none => false) || l.list.any (fun y => eqv y x)
+
+/-- `Sequence.count(value)` -/
+def countE (eqv : α → α → Bool) (l : KL α κ) (x : α) : Nat := l.list.countP (fun y => eqv y x)
+
+/-- `self._list == other`: same length and pairwise `==`. -/
+def listEqv (eqv : α → α → Bool) : List α → List α → Bool
+  | [], [] => true
+  | a :: as, b :: bs => eqv a b && listEqv eqv as bs
+  | _, _ => false
+
+/-- One operation with item equality `eqv`. -/
+def stepE (c : Cfg α κ) (eqv : α → α → Bool) (l : KL α κ) : Op α κ → KL α κ × Out α κ
+  | .remove x => match removeE c eqv l x with | .ok l' => (l', .none) | .error e => (l, .err e)
+  | .index x => (l, match indexOfE eqv l x with | .ok i => .nat i | .error e => .err e)
+  | .count x => (l, .nat (countE eqv l x))
+  | .containsItem x => (l, .bool (containsItemE c eqv l x))
+  | .eqList xs => (l, .bool (listEqv eqv l.list xs))
+  | op => step c l op
+
+def runE (c : Cfg α κ) (eqv : α → α → Bool) (l : KL α κ) : List (Op α κ) → KL α κ × List (Out α κ)
+  | [] => (l, [])
+  | op :: ops =>
+    let (l', o) := stepE c eqv l op
+    let (l'', os) := runE c eqv l' ops
+    (l'', o :: os)
+
 end SpecVerif.C13
